@@ -162,7 +162,8 @@ class Region:
             raise Unsupported("undefined term (nan) on this region")
         scale = max(1.0, abs(x))
         if abs(x) < TIE * scale:
-            raise Unsupported("witness lies on a region boundary")
+            from .algebra import show_rf
+            raise Unsupported("witness lies on a region boundary of " + show_rf(rf)[:120])
         s = 1 if x > 0 else -1
         self.trace.append((rf, ">0" if s > 0 else "<0"))
         return s
@@ -177,8 +178,9 @@ class Region:
 
 
 class RegionLifter:
-    def __init__(self, prog, region, max_steps=4000):
+    def __init__(self, prog, region, max_steps=4000, max_product=400000):
         self.prog, self.rg = prog, region
+        self.max_product = max_product
         self.steps, self.max_steps = 0, max_steps
         self.depth = 0
 
@@ -372,7 +374,13 @@ class RegionLifter:
             if isinstance(ix, tuple) and len(ix) == 2:
                 r, c = ix
                 if isinstance(r, slice):
-                    raise Unsupported("matrix column store")
+                    rows = list(range(len(base)))[r]
+                    if isinstance(c, slice):
+                        raise Unsupported("matrix block store")
+                    cc = self.as_int(c)
+                    for k, i in enumerate(rows):
+                        base[i][cc] = v[k] if isinstance(v, (Vec, list)) else v
+                    return
                 self.setitem(base[self.as_int(r)], c, v)
                 return
             row = base[self.as_int(ix)]
@@ -449,6 +457,11 @@ class RegionLifter:
                 if op is ast.Mod:
                     return x % y
             x, y = R(x), R(y)
+            if op in (ast.Mult, ast.Div, ast.Add, ast.Sub):
+                # deterministic guard against term growth (independent of machine load)
+                sx, sy = max(len(x.num), len(x.den)), max(len(y.num), len(y.den))
+                if sx * sy > self.max_product:
+                    raise Unsupported("term growth beyond the size budget")
             if op is ast.Add:
                 return x + y
             if op is ast.Sub:
@@ -649,6 +662,8 @@ class RegionLifter:
                 return (len(base),)
         if node.attr == "T" and isinstance(base, Mat):
             return Mat(Vec(col) for col in zip(*base))
+        if node.attr == "T" and isinstance(base, Vec):
+            return base
         if node.attr == "dtype":
             return "np.float64"
         if node.attr == "size" and isinstance(base, Vec):
@@ -792,6 +807,18 @@ class RegionLifter:
                 t = t + R(x)
                 out.append(t)
             return out
+        if name in ("np.logical_and", "np.logical_or"):
+            f2 = (lambda x, y: self.truth(x) and self.truth(y)) if name.endswith("and") \
+                else (lambda x, y: self.truth(x) or self.truth(y))
+            return self.ew(f2, args[0], args[1])
+        if name == "np.logical_not":
+            return self.ew(lambda x: not self.truth(x), args[0])
+        if name == "slice":
+            a = [self.as_int(x) for x in args]
+            return slice(*a)
+        if name == "np.append":
+            a, b = args
+            return Vec(list(a) + (list(b) if isinstance(b, (list, tuple)) else [b]))
         if name in ("np.dot",):
             return self.dot(args[0], args[1])
         if name == "np.where" and len(args) == 3:
